@@ -576,6 +576,10 @@ class Controller(object):
         try:
             c, g = self.model.lagrange_gradient(knew)
             # c = 1.0 if knew == self.model.kopt else 0.0  # based at xopt, just like d
+            if not (np.all(np.isfinite(c)) and np.all(np.isfinite(g))):
+                # degenerate interpolation set (e.g. all points pinned to the same bounds): treat like a singular system,
+                # rather than maximising a NaN polynomial and evaluating the objective at a NaN point
+                raise LA.LinAlgError("Non-finite Lagrange polynomial in geometry step")
             if self.model.projections:
                 # Solve problem: use projection onto arbitrary constraints, and ||xnew-xopt|| <= adelt
                 step = ctrsbox_geometry(self.model.xopt(abs_coordinates=True), c, g, self.model.projections, adelt, d_max_iters=params("dykstra.max_iters"), d_tol=params("dykstra.d_tol"))
